@@ -223,8 +223,14 @@ def program(rng, family=None):
             st.append(f"dft_copy 1 0 d {dc} x 0")
         else:
             st.append(f"dft_zero d {dc}")
-        st.append(f"setsize d {cap}")
-        st.append("dump d")
+        if rng.chance(1, 2):
+            # consume the shrunk buffer: the resulting big vector has exactly the active limbs (capacity is not content)
+            st.append("idft_consume y d")
+            st.append("dump y")
+            op += "+consume"
+        else:
+            st.append(f"setsize d {cap}")
+            st.append("dump d")
         meta.update(op=op, cap=cap, small=small)
     line = f"be={be} n={n} ; " + " ; ".join(st)
     return line, meta
